@@ -91,6 +91,38 @@ mod verif_kani {
         kani::cover!(matches!(r, Ok(Request::Connect(_))));
     }
 
+    /// scrape longer than 255 hashes (the limit is a u8): a CONCRETE datagram of 300 hashes (hash i = [i as u8; 20] pattern), symbolic limit.
+    /// Bounded by construction (one datagram shape); it pins the corner "more hashes than the limit type can count".
+    #[kani::proof]
+    #[kani::unwind(302)]
+    fn parse_scrape_long() {
+        const N: usize = 300;
+        let mut buf = [0u8; 16 + 20 * N];
+        buf[11] = 2; // action = scrape
+        buf[7] = 9; // connection id 9
+        buf[15] = 7; // transaction id 7
+        let mut i = 0;
+        while i < N {
+            buf[16 + 20 * i] = (i % 251) as u8;
+            buf[16 + 20 * i + 1] = (i / 251) as u8;
+            i += 1;
+        }
+        let max: u8 = kani::any();
+        let r = Request::parse_bytes(&buf, max);
+        match r {
+            Ok(Request::Scrape(s)) => {
+                assert!(s.info_hashes.len() == max as usize, "[C06.parse.scrape_truncation_long][C13.req.scrape.truncation_long] 300 hashes requested: exactly the first max_scrape_torrents are kept");
+                assert!(s.connection_id.0.get() == 9 && s.transaction_id.0.get() == 7, "[C13.req.scrape.fields] ids @0 / @12");
+                if max > 0 {
+                    let last = (max - 1) as usize;
+                    assert!(s.info_hashes[last].0[0] == (last % 251) as u8 && s.info_hashes[last].0[1] == (last / 251) as u8,
+                        "[C06.parse.scrape_order_long] hashes in request order");
+                }
+            }
+            _ => assert!(false, "[C13.req.scrape.accept] conforming scrape must be accepted"),
+        }
+    }
+
     /// scrape: classification, truncation to max_scrape_torrents, order and content, n <= 6 hashes plus ragged tails
     #[kani::proof]
     #[kani::unwind(22)]
